@@ -11,6 +11,7 @@ from ..r_alias import rule_retry_flush as _rule_retry_flush
 from ..r_codebooks import rule_cx_radical_lists as _rule_cxr
 from ..r_codebooks import rule_allene_reference_choice as _rule_allene_ref
 from ..r_round8 import rule_cx_index_language as _r8_cx
+from ..r_round9 import rule_reader_full_neighbour_list as _r9_nl, rule_morgan_seed_fields as _r9_seed
 
 LEVEL = 'other'
 
@@ -36,3 +37,5 @@ def run(ck, repo):
     _rule_cxr(ck, repo, 'C02.D2-cx-radical-lists', ['chython.files.daylight.smiles', 'chython.files.daylight.smarts'])
     _rule_allene_ref(ck, repo, 'C02.D3-allene-reference')
     _r8_cx(ck, repo, 'C02.D6-cx-index-language', ['chython.files.daylight.smiles', 'chython.files.daylight.smarts'])
+    _r9_nl(ck, repo, 'C02.D6-reader-full-neighbour-list')
+    _r9_seed(ck, repo, 'C02.D6-morgan-seed-fields')
